@@ -106,6 +106,9 @@ type tcase struct {
 	anyPan  string
 	lT2     int // batch 2: model verdict on the implementation's re-encoding
 	caseTxt string
+	// class "elem": one crafted payload against one curve element type (elements.go)
+	et  *elemType
+	pay payload
 }
 
 func (c *tcase) canon() string {
@@ -119,6 +122,8 @@ func (c *tcase) canon() string {
 			sm = "0"
 		}
 		c.caseTxt = fmt.Sprintf("typed|%s|%s|%s|%s|%s|%s", c.sample.Type, vh.Hex(c.sample.Bytes), vh.Hex(c.stream), sm, c.mut.Kind, c.mut.Path)
+	case "elem":
+		c.caseTxt = fmt.Sprintf("elem|%s|%s|%s", c.et.name, c.pay.kind, vh.Hex(c.pay.b))
 	default:
 		c.caseTxt = fmt.Sprintf("any|%s|%s", vh.Hex(c.stream), c.mut.Kind)
 	}
@@ -329,7 +334,7 @@ func genCases(a vh.Args, samples []Sample) []*tcase {
 	fixedDone := map[string]bool{}
 	maxExpensive, maxPerType := 1, 6
 	if a.Tier == "thorough" || a.Search {
-		maxExpensive, maxPerType = 4, 1 << 30
+		maxExpensive, maxPerType = 4, 1<<30
 	}
 	for i := range samples {
 		s := &samples[i]
@@ -505,6 +510,38 @@ func genCases(a vh.Args, samples []Sample) []*tcase {
 			}
 		}
 		cases = append(cases, &tcase{class: "any-mut", mut: m, stream: m.Bytes})
+	}
+	cases = append(cases, elemCases(a)...)
+	return cases
+}
+
+// elemCases: crafted payloads for every curve element type (decode validates like constructor).
+func elemCases(a vh.Args) []*tcase {
+	maxGeneric := 220
+	if a.Tier == "thorough" || a.Search {
+		maxGeneric = 1 << 30
+	}
+	var cases []*tcase
+	ets := buildElemTypes(a.Seed)
+	for i := range ets {
+		et := &ets[i]
+		seen := map[string]bool{}
+		generic := 0
+		for _, p := range et.payloads {
+			k := string(p.b)
+			if seen[k] {
+				continue
+			}
+			seen[k] = true
+			switch p.kind {
+			case "wrong-length", "flag-bits", "coordinate-tweak", "random", "random-x", "identity-like", "unreduced-ff":
+				generic++
+				if generic > maxGeneric {
+					continue
+				}
+			}
+			cases = append(cases, &tcase{class: "elem", et: et, pay: p, mut: mutation{Kind: p.kind}})
+		}
 	}
 	return cases
 }
@@ -798,6 +835,8 @@ func evaluate(a vh.Args, res *vh.Result, cases []*tcase) {
 			if e != nil && within && !hasByteKey(c.tree) {
 				mm("prop", "any/valid-rejected", "the library's decoder rejects the library's encoding "+vh.Hex(c.stream), "C12 round trip", true)
 			}
+		case "elem":
+			evalElem(res, c, mm)
 		case "any-mut":
 			verdict := field(c.lG, 2)
 			cls := "any-mut:" + c.mut.Kind + ":" + verdict
@@ -824,6 +863,43 @@ func rtKey(prefix, note string) string {
 		return "/reencode-not-deterministic"
 	}
 	return prefix + "/accepted-not-roundtrip"
+}
+
+// evalElem: UnmarshalCBOR / UnmarshalBinary of a curve element type must not be laxer than the byte
+// constructors of the type's own structure, and must keep the type's subgroup promise.
+func evalElem(res *vh.Result, c *tcase, mm func(kind, key, detail, what string, propfail bool)) {
+	et := c.et
+	outcome := ""
+	for _, d := range []struct {
+		name string
+		f    func([]byte) elemOutcome
+	}{{"cbor", et.cbor}, {"binary", et.binary}} {
+		if d.f == nil {
+			continue
+		}
+		o := d.f(c.pay.b)
+		switch {
+		case o.panicked != "":
+			outcome += " " + d.name + "=panic"
+			mm("prop", et.name+"/panic", d.name+" decoder panics on a "+c.pay.kind+" payload: "+o.panicked, "C12 (i) decoding never panics", true)
+		case !o.accepted:
+			outcome += " " + d.name + "=rejected"
+		default:
+			outcome += " " + d.name + "=accepted"
+			what := "C12 decode validates like construction (element types): " + map[string]string{"cbor": "UnmarshalCBOR", "binary": "UnmarshalBinary"}[d.name] + " accepts => the type's own byte constructor accepts with an Equal element"
+			switch {
+			case !o.ctorOK && !o.ctorAny:
+				mm("prop", et.name+"/"+d.name+"-laxer-than-constructor", "the "+d.name+" decoder accepts a "+c.pay.kind+" payload that every byte constructor of the type's own structure (FromCompressed/FromUncompressed/FromBytes) refuses", what, true)
+			case !o.ctorOK:
+				mm("prop", et.name+"/"+d.name+"-laxer-than-constructor", "the "+d.name+" decoder accepts a "+c.pay.kind+" payload as an element different from the one the type's byte constructors build from the same bytes", what, true)
+			case !o.subgroup:
+				mm("prop", et.name+"/"+d.name+"-laxer-than-constructor", "the "+d.name+" decoder accepts a "+c.pay.kind+" payload and the resulting element of a prime-order-subgroup type is not torsion free", what, true)
+			case !o.roundtrip:
+				mm("prop", et.name+"/"+d.name+"-accepted-not-roundtrip", "the accepted element does not survive encode/decode", "C12 (ii) round trip of accepted values", true)
+			}
+		}
+	}
+	res.Count("elem:"+et.name+":"+c.pay.kind+":"+strings.TrimSpace(outcome), c.canon(), strings.Contains(outcome, "accepted"))
 }
 
 func mustDecode(b []byte) *node {
@@ -992,6 +1068,14 @@ func replayCase(path string, samples []Sample) (*tcase, error) {
 			c.tree, _ = gdecode(stream)
 		}
 		return c, nil
+	case len(f) == 4 && f[0] == "elem":
+		ets := buildElemTypes(1)
+		for i := range ets {
+			if ets[i].name == f[1] {
+				return &tcase{class: "elem", et: &ets[i], pay: payload{f[2], vh.UnHex(f[3])}, mut: mutation{Kind: f[2]}}, nil
+			}
+		}
+		return nil, fmt.Errorf("no element type %s", f[1])
 	case len(f) >= 2 && f[0] == "any":
 		kind := "replay"
 		if len(f) > 2 {
